@@ -66,6 +66,11 @@ CLAIMED = {
    text="Every result of the C01 operand pairs is checked for closed chains, no zero-length pieces, weak simplicity of every boundary, Connected/Disjoint structure and singleton identity for geometrically empty/whole results; the documented laws S|~S, S&~S, S-S, S^S, S^~S are checked for identity with the singletons on generated S of every kind incl. curved; the kind tables of the docs are enumerated exhaustively over an 8x8 zoo x 4 operators and ~.",
    note="Trusted: refgeom witness points and winding numbers. Contacts at isolated points are allowed (xor of crossing shapes touches itself); crossings/overlaps are what the predicate rejects. Same excluded classes as C01.",
    ref="4/C06"),
+ "C12": dict(
+   technique="property-based testing (Hypothesis): metamorphic relation under generated similarity maps applied to the model's control points, combined with the reference membership oracle",
+   text="The C01 operand pairs under generated similarities (exact quarter turns, rational factors 1e-3..1e5 and translations for rational polygons - all judged; arbitrary angles, log-uniform factors and translations up to 1e5/1e6 for float and curved): membership of T(p) in T(A) op T(B) against the model, kind of the result with and without T, area scaling, invariance of containment.",
+   note="Trusted: reference membership and witness subset oracle. Float/curved configurations that are well conditioned as drawn but fall below the absolute conditioning thresholds after T are the open finding KF-C12-abs-tolerance (D16): excluded by an input predicate, counted, pinned replay is the property text's circle/square example.",
+   ref="4/C12"),
 }
 NOT_YET = "check not built yet in this round (planned, see DESIGN.md section 4); nothing is claimed for it"
 
